@@ -786,7 +786,7 @@ raise ValueError."""
                 target = self.resolve_aliases(target)
                 if isinstance(target, ast.Type):
                     unaliased = target
-            if unaliased == ast.TYPE_UINT64:
+            if unaliased in (ast.TYPE_UINT64, ast.TYPE_LONG_ULONG):
                 value = str(symbol.const_int % 2 ** 64)
             elif unaliased in (ast.TYPE_UINT32, ast.TYPE_UINT, ast.TYPE_UNICHAR):
                 value = str(symbol.const_int % 2 ** 32)
